@@ -1,0 +1,137 @@
+//
+//  Verification trace hooks (compiled only with -DCPPCMS_VERIF).
+//
+//  verif::emit() writes one ND-JSON line per event to the file named by the
+//  environment variable CPPCMS_VERIF_TRACE (or opened with verif::open()).
+//  It is a no-op unless tracing is switched on.  Every event carries a
+//  process-wide sequence number taken from one atomic counter and a small
+//  per-thread id; events are emitted by the instrumented code *after* the
+//  state change and *while the protecting lock is still held*, so the
+//  sequence number - never wall-clock time - orders them.
+//
+#ifndef BOOSTER_VERIF_TRACE_H
+#define BOOSTER_VERIF_TRACE_H
+#ifdef CPPCMS_VERIF
+
+#include <atomic>
+#include <stdarg.h>
+#include <stdio.h>
+#include <stdlib.h>
+#include <string.h>
+#include <unistd.h>
+#include <fcntl.h>
+
+namespace booster {
+namespace verif {
+
+	struct state {
+		std::atomic<unsigned long long> seq;
+		std::atomic<int> fd;       // -2: not initialised, -1: off, >=0: trace descriptor
+		std::atomic<int> next_tid;
+		void (*listener)(char const *line);
+		state() : seq(0), fd(-2), next_tid(0), listener(0) {}
+	};
+
+	// function-local static of an inline function: one instance per process
+	// (STB_GNU_UNIQUE), shared by libbooster, libcppcms and the harness
+	inline state &st()
+	{
+		static state s;
+		return s;
+	}
+
+	inline int tid()
+	{
+		static thread_local int id = -1;
+		if(id < 0)
+			id = st().next_tid++;
+		return id;
+	}
+
+	inline void open(char const *path)
+	{
+		int fd = path ? ::open(path,O_WRONLY | O_CREAT | O_APPEND | O_CLOEXEC,0644) : -1;
+		int old = st().fd.exchange(fd);
+		if(old >= 0)
+			::close(old);
+	}
+
+	inline void close()
+	{
+		open(0);
+	}
+
+	inline bool on()
+	{
+		int fd = st().fd.load(std::memory_order_relaxed);
+		if(fd == -2) {
+			char const *p = getenv("CPPCMS_VERIF_TRACE");
+			int expected = -2;
+			int nfd = (p && *p) ? ::open(p,O_WRONLY | O_CREAT | O_APPEND | O_CLOEXEC,0644) : -1;
+			if(!st().fd.compare_exchange_strong(expected,nfd)) {
+				if(nfd >= 0)
+					::close(nfd);
+			}
+			fd = st().fd.load();
+		}
+		return fd >= 0;
+	}
+
+	// emit("\"e\":\"Post\",\"h\":%d",id)  ->  {"seq":N,"tid":T,"e":"Post","h":id}
+	inline void emit(char const *fmt,...)
+	{
+		if(!on())
+			return;
+		char buf[1024];
+		unsigned long long n = st().seq++;
+		int len = snprintf(buf,sizeof(buf),"{\"seq\":%llu,\"tid\":%d,",n,tid());
+		va_list ap;
+		va_start(ap,fmt);
+		int r = vsnprintf(buf+len,sizeof(buf)-len-3,fmt,ap);
+		va_end(ap);
+		if(r < 0)
+			return;
+		len += r;
+		if(len > int(sizeof(buf)) - 3)
+			len = sizeof(buf) - 3;
+		buf[len++]='}';
+		buf[len++]='\n';
+		buf[len]=0;
+		int fd = st().fd.load();
+		if(fd >= 0) {
+			ssize_t w = ::write(fd,buf,len);
+			(void)w;
+		}
+		if(st().listener)
+			st().listener(buf);
+	}
+
+	// RAII pair of events: declare *after* a lock guard so that the first
+	// event is emitted once the lock is held and the second one before it
+	// is released (destructors run in reverse order of declaration)
+	struct scope {
+		char const *name_;
+		void const *obj_;
+		scope(char const *name,void const *obj) : name_(name), obj_(obj)
+		{
+			emit("\"e\":\"Lock\",\"m\":\"%s\",\"o\":%lu",name_,(unsigned long)((size_t)obj_ & 0xFFFFFF));
+		}
+		~scope()
+		{
+			emit("\"e\":\"Unlock\",\"m\":\"%s\",\"o\":%lu",name_,(unsigned long)((size_t)obj_ & 0xFFFFFF));
+		}
+	};
+
+} // verif
+} // booster
+
+#define BOOSTER_VERIF_EMIT(...) ::booster::verif::emit(__VA_ARGS__)
+#define BOOSTER_VERIF_SCOPE(var,name,obj) ::booster::verif::scope var(name,obj)
+
+#else
+
+#define BOOSTER_VERIF_EMIT(...) do {} while(0)
+#define BOOSTER_VERIF_SCOPE(var,name,obj) do {} while(0)
+
+#endif
+#endif
